@@ -62,6 +62,12 @@ CHECKS["C10"] = (
     "Write targets are observed by wrapping create_stub_files from the harness; unparsable stubs are C02's and skipped here.",
     "6/C10",
 )
+CHECKS["C15"] = (
+    "bounded-exhaustive enumeration of package trees, each analysed by the real pipeline under both values of the flag (relational oracle over the run pair)",
+    "11 directory names (test, tests, docs and 8 look-alikes incl. case variants) at depth 1 and 2 x 6 file names (m, test_m, tests, docs, test, conftest) x directory with/without __init__.py, plus two special directories nested and as siblings (6 pairs quick, all 121 ordered pairs thorough); every tree also holds an ordinary module. Each packed group is run with the flag off and on: excluded files contribute nothing (no function, module id or stub path) without the flag, every file contributes with it, look-alikes contribute under both, and the ordinary module's JSON entries and stub are identical under both.",
+    "'located in a directory named test/tests/docs' is read as: some directory segment below the package root equals that name exactly.",
+    "6/C15",
+)
 NOT_YET = {}  # id -> reason (filled for properties without a check)
 
 props = [json.loads(l) for l in open(V / "properties.jsonl")]
